@@ -90,11 +90,18 @@ type task struct {
 	site   int
 	fn     func()
 	panicV interface{}
+	pickN  int // > 0: the task asks the scheduler to choose among pickN alternatives (Pick)
+	pickK  int
 }
 
 // Chooser decides which of the enabled tasks runs next (returns an index into enabled).
 type Chooser interface {
 	Choose(step int, enabled []int, sites []int) int
+}
+
+// Picker is implemented by choosers that also decide choices other than "who runs next" (Pick).
+type Picker interface {
+	Pick(n int) int
 }
 
 // Sched is one scheduled execution.
@@ -225,6 +232,22 @@ func Go(fn func()) {
 	s.reg.wait()
 }
 
+// Pick lets the scheduler choose among n alternatives: which case an instrumented select looks at first (Go's
+// select chooses among ready cases at random; here that choice belongs to the schedule and replays).
+//
+//go:norace
+func Pick(site, n int) int {
+	t := me()
+	if t == nil || n <= 1 {
+		return 0
+	}
+	t.site = site
+	t.pickN = n
+	cur.back.signal(byte(t.id))
+	t.p.wait()
+	return t.pickK
+}
+
 // Idle is called by an instrumented select (rewritten into a polling loop) when none of its cases is ready: the
 // task is blocked until some other task has made a step.  Outside a simulation it sleeps briefly.
 //
@@ -301,6 +324,20 @@ func (s *Sched) loop() error {
 		s.Steps++
 		t.p.signal(1)
 		s.back.wait()
+		for t.pickN > 0 { // the running task asked for a choice: made here, on the scheduler's side, and the task goes on
+			k := 0
+			if p, ok := s.ch.(Picker); ok {
+				k = p.Pick(t.pickN)
+			}
+			if k < 0 || k >= t.pickN {
+				k = 0
+			}
+			t.pickK, t.pickN = k, 0
+			s.Trace = append(s.Trace, int32(-1-k))
+			s.TrSites = append(s.TrSites, int32(t.site))
+			t.p.signal(1)
+			s.back.wait()
+		}
 		if !(t.state == stBlocked && t.waitOn == idleAddr) {
 			// a step that did something (not a fruitless poll): tasks polling channels look again.  A poll that
 			// found nothing ready changes nothing for the others; waking them on it would let two pollers keep
